@@ -113,6 +113,7 @@ LABEL_RE = re.compile(r"//\s*@([A-Za-z0-9_.+\-\[\]:]+)")
 def classify(unit, text, res):
     """-> (failures, undecided_reasons). failures: list of dict(label, fn, msg, loc, rendered)"""
     failures, undecided = [], []
+    fmt_notes = unit.__dict__.setdefault("_fmt_notes", [])
     if res["timeout"]:
         undecided.append("verus timeout")
         return failures, undecided
@@ -128,6 +129,11 @@ def classify(unit, text, res):
         prim = [s for s in spans if s.get("is_primary")] or spans
         if any(re.search(p, msg) for p in RESOURCE):
             undecided.append("resource: " + msg)
+            continue
+        if msg.startswith("precondition not satisfied") and any("std_specs/fmt.rs" in (sp.get("file_name") or "") for sp in spans):
+            # vstd's "Display/Debug for T does not panic" precondition of format! for a type without an axiom in this unit:
+            # says nothing about any property clause (Verus assumes it and goes on) -> noted, neither violation nor undecided
+            fmt_notes.append("format! argument of a type without a Display-does-not-panic axiom at generated line %s" % (prim[0]["line_start"] if prim else "?"))
             continue
         if d.get("code") is not None or not any(re.search(p, msg) for p in VERIF_FAIL):
             undecided.append("verus/rustc error: %s @ %s" % (msg, ["%s:%s" % (s.get("file_name"), s.get("line_start")) for s in prim][:1]))
